@@ -292,6 +292,32 @@ class Model:
             if fr:
                 self._bad(w, 'retired-delivery',
                           f'emit to retired {n(sid)} delivered {fr!r}')
+        # a refusal is answered with *its own* message and data, whatever
+        # was refused before (on this or another transport)
+        free = [(s, ns) for s in range(self.T) for ns in REQ_NS
+                if self.served(ns) and (s, ns) not in w.conn][:1]
+        for s, ns in free:
+            for outcome in ('false', 'cre1'):
+                w.script['connect'] = outcome
+                w.recv_packet(w.slot[s], 0, ns)
+                log = w.take_log()
+                frames = [f for f in w.drain(w.slot[s]) if f[0] != 'eio']
+                sid_name = log[0][2] if log and log[0][0] == 'connect' \
+                    else None
+                payload = app.refusal_payload(outcome)
+                if self.always_connect:
+                    exp = [('pkt', 0, ns, None, {'sid': sid_name}),
+                           ('pkt', 1, ns, None, payload)]
+                else:
+                    exp = [('pkt', 4, ns, None, payload)]
+                if frames != exp:
+                    self._bad(w, 'refusal-answer', f'refusal probe '
+                              f'{outcome} on slot {s} {ns}: frames '
+                              f'{frames!r}, expected {exp!r}')
+                for key, rs in list(w.namer.names.items()):
+                    if rs == sid_name:
+                        w.all_sids.add(key)
+            w.script['connect'] = 'accept'
         # the room joined by connect handlers holds exactly the live joiners
         for ns in REQ_NS:
             w.api('emit', 'p', 2, to=app.JOIN_ROOM, namespace=ns)
